@@ -29,6 +29,8 @@ type World struct {
 	Srv *server.Server
 	Cl  *cluster.RaftCluster
 	M   *simtikv.Model
+	// onStoreHB is called before (phase 0) and after (phase 1) every store heartbeat RPC
+	onStoreHB func(store uint64, phase int, lowSpace bool)
 }
 
 type worldOpts struct {
@@ -134,6 +136,16 @@ func (w *World) storeHeartbeat(st *simtikv.Store) error {
 			}
 		}
 	}
+	// low on space as PD defines it: less than 20% free, and (stores with few regions, issue #3444) not more than 8 GiB free
+	low := float64(st.Capacity-st.Used) < 0.2*float64(st.Capacity) && st.Capacity-st.Used <= 1<<33
+	if w.onStoreHB != nil {
+		w.onStoreHB(st.ID, 0, low)
+	}
+	defer func() {
+		if w.onStoreHB != nil {
+			w.onStoreHB(st.ID, 1, low)
+		}
+	}()
 	_, err := cli.StoreHeartbeat(ctx, &pdpb.StoreHeartbeatRequest{Header: &pdpb.RequestHeader{ClusterId: w.E.ClusterID}, Stats: &pdpb.StoreStats{
 		StoreId: st.ID, Capacity: st.Capacity, Available: st.Capacity - st.Used, UsedSize: st.Used, RegionCount: uint32(regions),
 		StartTime: 946684800, Interval: &pdpb.TimeInterval{StartTimestamp: 0, EndTimestamp: 10},
